@@ -63,6 +63,11 @@ def known_for(known, sig):
     for rec in known:
         if sig_matches(rec['signature'], sig):
             return rec
+    # runs with a multi-extent file carry a tag in front; what is known without the tag is known with it
+    if sig and str(sig[0]).startswith('multi-extent-file:'):
+        for rec in known:
+            if sig_matches(rec['signature'], sig[1:]):
+                return rec
     return None
 
 
